@@ -226,4 +226,11 @@ def l5_formats(ctx):
     du5_formats(ctx)
 
 
-RULES = [('L1', l1_tables), ('L2', l2_month_spellings), ('L3', l3_printers), ('L4', l4_word_free), ('DU5', l5_formats)]
+def l6_alias_case(ctx):
+    """L6 operator / alias words of every language work in any letter case (shared with C16 W1, alias clause)"""
+    from .C16 import alias_case
+    ctx.rule('L6', 'alias words are matched case-insensitively', floor=20)
+    alias_case(ctx, 'L6')
+
+
+RULES = [('L6', l6_alias_case), ('L1', l1_tables), ('L2', l2_month_spellings), ('L3', l3_printers), ('L4', l4_word_free), ('DU5', l5_formats)]
